@@ -266,7 +266,7 @@ func gen(r *rand.Rand, tier string, n int) []any {
 	var out []any
 	maxB := 14
 	if tier == "thorough" {
-		maxB = 60
+		maxB = 40
 	}
 	for i := 0; i < n; i++ {
 		var in input
@@ -331,6 +331,6 @@ func gen(r *rand.Rand, tier string, n int) []any {
 }
 
 func main() {
-	common.Main(common.Prop{ID: "C31", Facts: facts, Gen: gen, Run: run, QuickN: 500, ThoroughN: 5000,
+	common.Main(common.Prop{ID: "C31", Facts: facts, Gen: gen, Run: run, QuickN: 500, ThoroughN: 2500,
 		Preamble: "Open Scope Z_scope.\n"})
 }
